@@ -1014,21 +1014,56 @@ def _wake_reason(st, tid):
     return None
 
 def _clock(st): return st.ghost.get('clock_ns', 1000000000000)
-def _ts_ns(st, p): return st.mem.load(p, 8) * 1000000000 + st.mem.load(p + 8, 8)
+def _ts_ns(st, p):
+    sec = st.mem.load(p, 8); ns = st.mem.load(p + 8, 8)
+    if isinstance(sec, int) and isinstance(ns, int): return sec * 1000000000 + ns
+    return z3.simplify(to_bv(sec, 64) * z3.BitVecVal(1000000000, 64) + to_bv(ns, 64))
+
+def _check_nsec(ex, st, ts, who):
+    """POSIX: tv_nsec must be in [0, 1e9) or the call fails with EINVAL; symbolic values are decided by the solver"""
+    nsec = st.mem.load(ts + 8, 8)
+    if isinstance(nsec, int):
+        if nsec >= 1000000000: raise MemError('pthread', who + ': tv_nsec not normalised (EINVAL)')
+        return
+    bad = z3.UGE(nsec, z3.BitVecVal(1000000000, 64))
+    r, m = ex.check(st, bad)
+    if r == 'sat':
+        ex.violation(st, 'pthread', who + ': tv_nsec not normalised for some timeout (EINVAL)', model=m, fatal=False)
+    elif r == 'unknown': ex.note_unsupported('solver-unknown-on-nsec')
+    ex.add_constraint(st, z3.Not(bad)); st.model = None
+
+def _later(a, b):
+    """max of two clock values (ints or 64-bit terms)"""
+    if isinstance(a, int) and isinstance(b, int): return max(a, b)
+    return z3.If(z3.UGE(to_bv(a, 64), to_bv(b, 64)), to_bv(a, 64), to_bv(b, 64))
 
 @builtin('clock_gettime')
 def b_clock_gettime(ex, st, args, ins):
     t = _clock(st)
-    st.mem.store(args[1], 8, t // 1000000000); st.mem.store(args[1] + 8, 8, t % 1000000000)
+    if isinstance(t, int):
+        st.mem.store(args[1], 8, t // 1000000000); st.mem.store(args[1] + 8, 8, t % 1000000000)
+    else:
+        st.mem.store(args[1], 8, z3.UDiv(t, z3.BitVecVal(1000000000, 64))); st.mem.store(args[1] + 8, 8, z3.URem(t, z3.BitVecVal(1000000000, 64)))
     return 0
 @builtin('gettimeofday')
 def b_gettimeofday(ex, st, args, ins):
     t = _clock(st)
     st.mem.store(args[0], 8, t // 1000000000); st.mem.store(args[0] + 8, 8, (t % 1000000000) // 1000)
     return 0
-@builtin('usleep', 'nanosleep', 'sched_yield', 'pthread_yield', 'sleep')
+@builtin('usleep', 'nanosleep', 'sched_yield', 'pthread_yield', 'sleep', 'vf_yield')
 def b_sleep(ex, st, args, ins):
-    return 0
+    """voluntary yield: if another thread can run, one of them runs next (no preemption cost); the yielder resumes later"""
+    th = st.threads[st.cur]; tid = th.tid
+    y = st.ghost.get('yielded', ())
+    if tid in y:
+        st.ghost['yielded'] = tuple(x for x in y if x != tid)
+        return 0
+    others = [t for t in st.threads if t.tid != tid and (t.status == 'run' or (t.status == 'blocked' and t.wait(ex, st, t) is True))]
+    if not others: return 0
+    st.ghost['yielded'] = tuple(y) + (tid,)
+    st.ghost['yielder'] = tid
+    th.status = 'blocked'; th.wait = lambda ex_, st_, t_: True
+    raise Blocked()
 
 # condition variables: waiters live in engine-side ghost state  cond_waiters[addr] = (tid, ...)
 def _waiters(st, c): return st.ghost.get('cond_waiters', {}).get(c, ())
@@ -1069,7 +1104,7 @@ def _cond_wait(ex, st, c, m, deadline_ns):
             _set_waiters(st, c, [x for x in _waiters(st, c) if x != tid])
             if reason == 'timeout':
                 res = 110  # ETIMEDOUT: only ever reported once the clock has reached the deadline
-                st.ghost['clock_ns'] = max(_clock(st), deadline_ns)
+                st.ghost['clock_ns'] = _later(_clock(st), deadline_ns)
         p2 = dict(st.ghost.get('cw_phase', {})); p2[tid] = ('relock', c, m, res); st.ghost['cw_phase'] = p2
         ph = p2[tid]
     if not _mutex_try(ex, st, m, tid):
@@ -1084,8 +1119,7 @@ def b_cond_wait(ex, st, args, ins): return _cond_wait(ex, st, args[0], args[1], 
 @builtin('pthread_cond_timedwait')
 def b_cond_timedwait(ex, st, args, ins):
     ts = args[2]
-    nsec = st.mem.load(ts + 8, 8)
-    if not isinstance(nsec, int) or nsec >= 1000000000: raise MemError('pthread', 'pthread_cond_timedwait: tv_nsec not normalised (EINVAL)')
+    if st.ghost.get('cw_phase', {}).get(st.threads[st.cur].tid) is None: _check_nsec(ex, st, ts, 'pthread_cond_timedwait')
     return _cond_wait(ex, st, args[0], args[1], _ts_ns(st, ts))
 
 @builtin('pthread_cond_signal')
@@ -1128,7 +1162,7 @@ def _sem_wait(ex, st, s, deadline_ns):
         _wake_reason(st, tid)
         st.mem.store(s, 4, v - 1); return 0
     if deadline_ns is not None and _wake_reason(st, tid) == 'timeout':
-        st.ghost['clock_ns'] = max(_clock(st), deadline_ns)
+        st.ghost['clock_ns'] = _later(_clock(st), deadline_ns)
         st.mem.store(b_errno(ex, st, [], None), 4, 110); return ops.mask(32)
     th.status = 'blocked'
     timed = deadline_ns is not None
@@ -1141,8 +1175,8 @@ def _sem_wait(ex, st, s, deadline_ns):
 def b_sem_wait(ex, st, args, ins): return _sem_wait(ex, st, args[0], None)
 @builtin('sem_timedwait')
 def b_sem_timedwait(ex, st, args, ins):
-    ts = args[1]; nsec = st.mem.load(ts + 8, 8)
-    if not isinstance(nsec, int) or nsec >= 1000000000: raise MemError('pthread', 'sem_timedwait: tv_nsec not normalised (EINVAL)')
+    ts = args[1]
+    _check_nsec(ex, st, ts, 'sem_timedwait')
     return _sem_wait(ex, st, args[0], _ts_ns(st, ts))
 @builtin('sem_getvalue')
 def b_sem_getvalue(ex, st, args, ins): st.mem.store(args[1], 4, st.mem.load(args[0], 4)); return 0
@@ -1190,8 +1224,6 @@ def vf_join(ex, st, args, ins):
     th = st.threads[st.cur]; th.status = 'blocked'
     th.wait = lambda ex_, st_, t_, tid=tid: st_.threads[tid].status == 'done'
     raise Blocked()
-@builtin('vf_yield')
-def vf_yield(ex, st, args, ins): return 0
 @builtin('vf_clock_ns')
 def vf_clock_ns(ex, st, args, ins): return _clock(st)
 @builtin('vf_tid')
